@@ -155,6 +155,29 @@ def model_fn(case):
         emission_lic = lic
         r.check(bool(np.all(np.abs(sr - sf[idx]) <= lic + 1e-9 * np.abs(sf[idx]))), 'restricted-spectrum-equals-full',
                 'spectrum/' + tag, request=req, got=sr, want=sf[idx], licence=lic)
+    # the per-source entry points on the restricted grid against the same entry points on the full grid
+    if case.get('sub') in ([2, 5], [7, 10], [0, 10], [0, 2]) and case['mag'] == 'tau1' and case.get('order') is None:
+        try:
+            _, cdf = m.model_contrib()
+            _, cdr = m2.model_contrib(wngrid=req_passed, cutoff_grid=case['cutoff'])
+            _, fdf = m.model_full_contrib()
+            _, fdr = m2.model_full_contrib(wngrid=req_passed, cutoff_grid=case['cutoff'])
+        except Exception as e:
+            cdf = None
+            r.check(False, 'no-exception', 'exception/%s/per-source/%s' % (type(e).__name__, tag), exc=repr(e))
+        if cdf is not None:
+            r.check(sorted(cdf) == sorted(cdr), 'per-source-restricted', 'per-source/names/' + tag)
+            pairs = [(n_, np.asarray(cdf[n_][0], float), np.asarray(cdr[n_][0], float)) for n_ in cdf if n_ in cdr]
+            for n_ in fdf:
+                if n_ in fdr and len(fdf[n_]) == len(fdr[n_]):
+                    pairs += [('%s/%s' % (n_, a[0]), np.asarray(a[1], float), np.asarray(b[1], float))
+                              for a, b in zip(fdf[n_], fdr[n_])]
+            for n_, full_, restr_ in pairs:
+                if restr_.shape == (len(gr),):
+                    r.check(bool(np.all(np.abs(restr_ - full_[idx]) <= emission_lic + 1e-9 * np.abs(full_[idx]))),
+                            'per-source-restricted', 'per-source/%s' % tag, source=n_, got=restr_, want=full_[idx])
+                else:
+                    r.check(False, 'per-source-restricted', 'per-source/shape/' + tag, source=n_, got=restr_.shape)
     # binned to the observation (widths implied by the mid-points => the stated condition holds)
     if len(req) >= 2:
         w = compute_bin_edges(req)[-1]
